@@ -150,6 +150,14 @@ def leaf : Val → J
   | .sc v => .sc v
   | _ => .null
 
+def Val.isObj : Val → Bool
+  | .obj _ _ => true
+  | _ => false
+
+def Val.fields : Val → List (Nat × Val)
+  | .obj _ fs => fs
+  | _ => []
+
 /-- naive sequential evaluation of one value under a selection -/
 def refEval (σ : Schema) : Nat → List PE → Ty → Option SelSet → Val → Except Err J
   | 0, _, _, _, _ => .error ⟨0, false, []⟩
@@ -163,9 +171,9 @@ def refEval (σ : Schema) : Nat → List PE → Ty → Option SelSet → Val →
           .ok (.arr rs)
       | _ => .ok (.arr [])
   | f+1, p, .object n, ss, v =>
-      match v, lookup n σ.objects, ss with
-      | .obj _ fields, some od, some ss => refObject f p n od fields (flatten (fun t => t = n) f ss)
-      | _, _, _ => .ok .null
+      match lookup n σ.objects, ss with
+      | some od, some ss => if v.isObj then refObject f p n od v.fields (flatten (fun _ => true) f ss) else .ok .null
+      | _, _ => .ok .null
   | f+1, p, .union n, ss, v =>
       match v, ss with
       | .obj m fields, some ss =>
@@ -173,24 +181,28 @@ def refEval (σ : Schema) : Nat → List PE → Ty → Option SelSet → Val →
           | some od =>
               if ((lookup n σ.unions).getD []).contains m then
                 -- union-level selections (only `__typename`) plus the fragments on the member
-                refObject f p m od fields (flatten (fun t => t = m) f ss)
+                refObject f p m od fields (flatten (fun _ => true) f (.mk ss.sels (ss.frags.filter fun fr => fr.on == m)))
               else .ok .null
           | none => .ok .null
       | _, _ => .ok .null
 where
-  refObject (f : Nat) (p : List PE) (n : Nat) (od : ObjDef) (fields : List (Nat × Val)) (sels : List Flat) : Except Err J := do
-    let kvs ← sels.mapM fun fl =>
-      if fl.name = 0 then pure (fl.alias, J.sc n)
-      else match findField fl.name od.fields with
-        | some fd => do
-            let r ← refEval σ f (p ++ [.key fl.alias]) fd.ty fl.sub ((lookup fd.src fields).getD .null)
-            pure (fl.alias, r)
-        | none => pure (fl.alias, J.null)
+  refSel (f : Nat) (p : List PE) (n : Nat) (od : ObjDef) (fields : List (Nat × Val)) (fl : Flat) : Except Err (Nat × J) :=
+    if fl.name = 0 then .ok (fl.alias, J.sc n)
+    else match findField fl.name od.fields with
+      | some fd => do
+          let r ← refEval σ f (p ++ [.key fl.alias]) fd.ty fl.sub ((lookup fd.src fields).getD .null)
+          .ok (fl.alias, r)
+      | none => .ok (fl.alias, J.null)
+  refKey (f : Nat) (p : List PE) (od : ObjDef) (fields : List (Nat × Val)) : Except Err (List (Nat × J)) :=
     match od.key with
     | some k => do
         let kv ← refEval σ f (p ++ [.key 0]) .scalar none ((lookup k fields).getD .null)
-        .ok (.obj (kvs ++ [(0, kv)]))
-    | none => .ok (.obj kvs)
+        .ok [(0, kv)]
+    | none => .ok []
+  refObject (f : Nat) (p : List PE) (n : Nat) (od : ObjDef) (fields : List (Nat × Val)) (sels : List Flat) : Except Err J := do
+    let kvs ← sels.mapM (refSel f p n od fields)
+    let key ← refKey f p od fields
+    .ok (.obj (kvs ++ key))
 
 end TM.Gql
 
@@ -204,9 +216,10 @@ def regroup {α : Type} : List Nat → List α → List (List α)
   | [], _ => []
   | n :: ns, xs => xs.take n :: regroup ns (xs.drop n)
 
-/-- `splitToNWorkUnits`: unit `j` gets the items at positions `j, j+k, j+2k, …` -/
-def splitN {α : Type} (k : Nat) (xs : List α) : List (List α) :=
-  (List.range k).map fun j => (xs.zipIdx.filter fun (_, i) => i % k = j).map (·.1)
+/-- `splitToNWorkUnits`: unit `j` gets the items at positions `j, j+k, j+2k, …` (the Go loop
+appends item `idx` to unit `idx % k`, so every unit holds that arithmetic progression, ascending) -/
+def splitN {α : Type} (dflt : α) (k : Nat) (xs : List α) : List (List α) :=
+  (List.range k).map fun j => (List.range ((xs.length + k - 1 - j) / k)).map fun q => xs.getD (q * k + j) dflt
 
 /-- the clamp of `splitToNWorkUnits` -/
 def clampUnits (k n : Nat) : Nat := if k > n then (if n = 0 then 1 else n) else if k = 0 then 1 else k
@@ -247,113 +260,147 @@ def batchFail : List Item → Option Err
       | some (e, s) => some (mkErr e s p0)
       | none => none
 
-mutual
+/-- does the unit call the batch resolver? -/
+def FieldDef.useBatch (fd : FieldDef) : Bool :=
+  match fd.mode with
+  | .batch => true
+  | .fallback b => b
+  | _ => false
+
+/-- an Expensive field runs as one unit per source -/
+def expensiveOne (rb : Ty → Option SelSet → List Item → Except Err (List J))
+    (fd : FieldDef) (sub : Option SelSet) (it : Item) : Except Err (List J) :=
+  match failOf it.2 with
+  | some (e, s) => .error (mkErr e s it.1)
+  | none => rb fd.ty sub [it]
+
+/-- one work unit over `part` of the sources; `rb` resolves the field's results (`resolveBatch`
+one level down) -/
+def unitOne (rb : Ty → Option SelSet → List Item → Except Err (List J))
+    (fd : FieldDef) (sub : Option SelSet) (part : List Item) : Except Err (List J) :=
+  if fd.useBatch then
+    match batchFail part with
+    | some e => .error e
+    | none => rb fd.ty sub part
+  else if fd.mode = .expensive then
+    -- one unit per source
+    (part.mapM (expensiveOne rb fd sub)).map List.flatten
+  else
+    match firstFail part with
+    | some e => .error e
+    | none => rb fd.ty sub part
+
+/-- is the unit split by `NumParallelInvocationsFunc`? (batch and external non-expensive fields only) -/
+def FieldDef.splits (fd : FieldDef) : Option Nat :=
+  match fd.parallel with
+  | none => none
+  | some k => if fd.useBatch then some k else if fd.mode = .expensive || fd.mode = .inline then none else some k
+
+/-- `executeWorkUnit` by execution mode -/
+def execUnitWith (rb : Ty → Option SelSet → List Item → Except Err (List J))
+    (fd : FieldDef) (sub : Option SelSet) (items : List Item) : Except Err (List J) :=
+  match fd.splits with
+  | none => unitOne rb fd sub items
+  | some k =>
+      let k' := clampUnits k items.length
+      do
+        let rs ← (splitN ([], Val.null) k' items).mapM (unitOne rb fd sub)
+        .ok (gather k' items.length rs .null)
+
+/-- the results of one flattened selection for all non-nil sources (one "column") -/
+def column (rb : Ty → Option SelSet → List Item → Except Err (List J))
+    (n : Nat) (od : ObjDef) (nonNil : List Item) (fl : Flat) : Except Err (Nat × List J) :=
+  if fl.name = 0 then .ok (fl.alias, nonNil.map fun _ => J.sc n)
+  else match findField fl.name od.fields with
+    | some fd => do
+        let rs ← execUnitWith rb fd fl.sub (nonNil.map fun it => (it.1 ++ [.key fl.alias], (lookup fd.src it.2.fields).getD .null))
+        .ok (fl.alias, rs)
+    | none => .ok (fl.alias, nonNil.map fun _ => J.null)
+
+def keyColumn (rb : Ty → Option SelSet → List Item → Except Err (List J))
+    (od : ObjDef) (nonNil : List Item) : Except Err (List (Nat × List J)) :=
+  match od.key with
+  | some k => do
+      let rs ← execUnitWith rb ⟨k, .scalar, .inline, none, k⟩ none (nonNil.map fun it => (it.1 ++ [.key 0], (lookup k it.2.fields).getD .null))
+      .ok [((0 : Nat), rs)]
+  | none => .ok []
+
+/-- `resolveObjectBatch` on the flattened selections -/
+def resolveObjectWith (rb : Ty → Option SelSet → List Item → Except Err (List J))
+    (n : Nat) (od : ObjDef) (sels : List Flat) (items : List Item) : Except Err (List J) :=
+  let nonNil : List Item := items.filter fun it => it.2.isObj
+  do
+    -- one column of results per selection, parallel to `nonNil`
+    let cols ← sels.mapM (column rb n od nonNil)
+    let keyCol ← keyColumn rb od nonNil
+    let all := cols ++ keyCol
+    let objs : List J := (List.range nonNil.length).map fun j => J.obj (all.map fun (ac : Nat × List J) => (ac.1, ac.2.getD j .null))
+    .ok (mergeBack (items.map fun it => if it.2.isObj then some 0 else none) [(0, objs)])
+
+/-- the union member an item's value belongs to (`resolveUnionBatch`'s reflect walk over the embedded pointers) -/
+def unionTag (members : List Nat) (it : Item) : Option Nat :=
+  match it.2 with
+  | .obj m _ => if members.contains m then some m else none
+  | _ => none
+
+/-- the items whose value is of member `m` -/
+def isMember (m : Nat) (it : Item) : Bool :=
+  match it.2 with
+  | .obj m' _ => m' == m
+  | _ => false
+
+/-- the child items of a list-valued item: one per element, at path `…/i` -/
+def listChildren (it : Item) : List Item :=
+  match it.2 with
+  | .list xs => xs.zipIdx.map fun (x, i) => (it.1 ++ [.idx i], x)
+  | _ => []
+
 /-- `resolveBatch`: results parallel to `items` -/
 def resolveBatch (σ : Schema) : Nat → Ty → Option SelSet → List Item → Except Err (List J)
+  | _, _, _, [] => .ok []
   | 0, _, _, _ => .error ⟨0, false, []⟩
-  | _+1, _, _, [] => .ok []
   | f+1, .nonNull t, ss, items => resolveBatch σ f t ss items
   | _+1, .scalar, _, items => .ok (items.map fun it => leaf it.2)
   | f+1, .list t, ss, items =>
-      let children : List (List Item) := items.map fun (p, v) =>
-        match v with
-        | .list xs => xs.zipIdx.map fun (x, i) => (p ++ [.idx i], x)
-        | _ => []
+      let children : List (List Item) := items.map listChildren
       do
         let rs ← resolveBatch σ f t ss children.flatten
         .ok ((regroup (children.map List.length) rs).map J.arr)
   | f+1, .object n, ss, items =>
       match lookup n σ.objects, ss with
-      | some od, some ss => resolveObject σ f n od (flatten (fun _ => true) f ss) items
+      | some od, some ss => resolveObjectWith (resolveBatch σ f) n od (flatten (fun _ => true) f ss) items
       | _, _ => .ok (items.map fun _ => .null)
   | f+1, .union n, ss, items =>
       match ss with
       | none => .ok (items.map fun _ => .null)
       | some ss =>
         let members := (lookup n σ.unions).getD []
-        let tags : List (Option Nat) := items.map fun it =>
-          match it.2 with
-          | .obj m _ => if members.contains m then some m else none
-          | _ => none
+        let tags : List (Option Nat) := items.map (unionTag members)
         do
           let queues ← members.mapM fun m =>
-            let mine := items.filter fun it => match it.2 with | .obj m' _ => m' == m | _ => false
+            let mine := items.filter (isMember m)
             match lookup m σ.objects with
             | some od => do
                 -- repaired `resolveUnionBatch`: union-level selections + all fragments on the member, merged
                 let merged := SelSet.mk ss.sels (ss.frags.filter fun fr => fr.on == m)
-                let rs ← resolveObject σ f m od (flatten (fun _ => true) f merged) mine
+                let rs ← resolveObjectWith (resolveBatch σ f) m od (flatten (fun _ => true) f merged) mine
                 pure (m, rs)
             | none => pure (m, mine.map fun _ => J.null)
           .ok (mergeBack tags queues)
-/-- `resolveObjectBatch` on the flattened selections -/
-def resolveObject (σ : Schema) : Nat → Nat → ObjDef → List Flat → List Item → Except Err (List J)
-  | 0, _, _, _, _ => .error ⟨0, false, []⟩
-  | f+1, n, od, sels, items =>
-      let nonNil : List (List PE × List (Nat × Val)) := items.filterMap fun it =>
-        match it.2 with
-        | .obj _ fields => some (it.1, fields)
-        | _ => none
-      do
-        -- one column of results per selection, parallel to `nonNil`
-        let cols ← sels.mapM fun fl =>
-          if fl.name = 0 then pure (fl.alias, nonNil.map fun _ => J.sc n)
-          else match findField fl.name od.fields with
-            | some fd => do
-                let rs ← execUnit σ f fd fl.sub (nonNil.map fun (p, fields) => (p ++ [.key fl.alias], (lookup fd.src fields).getD .null))
-                pure (fl.alias, rs)
-            | none => pure (fl.alias, nonNil.map fun _ => J.null)
-        let keyCol ← match od.key with
-          | some k => do
-              let rs ← execUnit σ f ⟨k, .scalar, .inline, none, k⟩ none (nonNil.map fun (p, fields) => (p ++ [.key 0], (lookup k fields).getD .null))
-              pure [((0 : Nat), rs)]
-          | none => pure []
-        let all := cols ++ keyCol
-        let objs : List J := (List.range nonNil.length).map fun j => J.obj (all.map fun (a, col) => (a, col.getD j .null))
-        .ok (mergeBack (items.map fun it => match it.2 with | .obj _ _ => some 0 | _ => none) [(0, objs)])
-/-- `executeWorkUnit` by execution mode -/
-def execUnit (σ : Schema) : Nat → FieldDef → Option SelSet → List Item → Except Err (List J)
-  | 0, _, _, _ => .error ⟨0, false, []⟩
-  | f+1, fd, sub, items =>
-      let useBatch := match fd.mode with | .batch => true | .fallback b => b | _ => false
-      let one (part : List Item) : Except Err (List J) :=
-        if useBatch then
-          match batchFail part with
-          | some e => .error e
-          | none => resolveBatch σ f fd.ty sub part
-        else match fd.mode with
-          | .expensive =>
-              -- one unit per source
-              (part.mapM fun (it : Item) => match failOf it.2 with
-                | some (e, s) => (Except.error (mkErr e s it.1) : Except Err (List J))
-                | none => resolveBatch σ f fd.ty sub [it]).map List.flatten
-          | _ =>
-              match firstFail part with
-              | some e => .error e
-              | none => resolveBatch σ f fd.ty sub part
-      match fd.parallel, fd.mode with
-      | some k, .expensive => one items
-      | some k, .inline => one items
-      | some k, _ =>
-          let k' := clampUnits k items.length
-          do
-            let rs ← (splitN k' items).mapM one
-            .ok (gather k' items.length rs .null)
-      | none, _ => one items
-end
 
 /-- `Executor.Execute` for a query on the root object -/
 def execute (σ : Schema) (fuel : Nat) (root : Nat) (rootVal : Val) (q : SelSet) : Except Err J :=
   match lookup root σ.objects with
   | some od => do
-      let rs ← resolveObject σ fuel root { od with key := none } (flatten (fun _ => true) fuel q) [([], rootVal)]
+      let rs ← resolveObjectWith (resolveBatch σ fuel) root { od with key := none } (flatten (fun _ => true) fuel q) [([], rootVal)]
       .ok (rs.headD .null)
   | none => .error ⟨0, false, []⟩
 
-/-- the specification: sequential reference evaluation -/
+/-- the specification: sequential reference evaluation of the root object -/
 def reference (σ : Schema) (fuel : Nat) (root : Nat) (rootVal : Val) (q : SelSet) : Except Err J :=
-  match lookup root σ.objects with
-  | some od => refEval σ fuel [] (.object root) (some q) (match rootVal with | .obj t fs => .obj t fs | v => v) |>.map id
-  | none => .error ⟨0, false, []⟩
+  match lookup root σ.objects, rootVal with
+  | some od, .obj _ fields => refEval.refObject σ fuel [] root { od with key := none } fields (flatten (fun _ => true) fuel q)
+  | some _, _ => .ok .null
+  | none, _ => .error ⟨0, false, []⟩
 
 end TM.Gql
